@@ -546,4 +546,37 @@ Section Extract.
       clear -D Hst Hconv. induction D as [|o args D0 _ IH]; [constructor|]. inversion Hst; subst. constructor; [|apply IH; assumption].
       destruct o as [lv|]; [|exact I]. destruct D0 as [v Hv]. exists v. apply Hconv; assumption.
   Qed.
+
+  (* ================= denotations under renaming ================= *)
+  (* r renames graph ids (order preserving on D), rl renames store locations; the valuation rho' holds at rl loc the
+     renamed value rho holds at loc.  Then a denotation over (D, L) is mapped to a denotation, and its value lies in D. *)
+  Lemma den_ren (D L : N -> Prop) r rl rho rho' :
+    (forall i j, D i -> D j -> i < j -> r i < r j) ->
+    (forall loc w, L loc -> nth_error rho (N.to_nat loc) = Some w -> vall D w /\ nth_error rho' (N.to_nat (rl loc)) = Some (vren r w)) ->
+    forall lv v, den call rho lv v -> lvall okfn D L lv -> den call rho' (lvren r rl lv) (vren r v) /\ vall D v.
+  Proof.
+    intros Hr Hrho. pose proof (smono_cmp_pres D r Hr) as Hcmp.
+    apply (den_ind2 call rho (fun lv v => lvall okfn D L lv -> den call rho' (lvren r rl lv) (vren r v) /\ vall D v)).
+    - intros v Hv. cbn [lvall lvren] in *. split; [constructor|exact Hv].
+    - intros ls vs HF Hl. rewrite lvall_list in Hl.
+      assert (G : Forall2 (den call rho') (map (lvren r rl) ls) (map (vren r) vs) /\ Forall (vall D) vs).
+      { clear -HF Hl. induction HF as [|l v ls vs [_ IHx] _ IH]; cbn [map]; [split; constructor|]. inversion Hl; subst.
+        destruct (IHx ltac:(assumption)) as [A1 A2]. destruct (IH ltac:(assumption)) as [B1 B2]. split; constructor; assumption. }
+      destruct G as [G1 G2]. split; [cbn [lvren vren]; constructor; exact G1|rewrite vall_list; exact G2].
+    - intros ls vs HF Hl. rewrite lvall_set in Hl.
+      assert (G : Forall2 (den call rho') (map (lvren r rl) ls) (map (vren r) vs) /\ Forall (vall D) vs).
+      { clear -HF Hl. induction HF as [|l v ls vs [_ IHx] _ IH]; cbn [map]; [split; constructor|]. inversion Hl; subst.
+        destruct (IHx ltac:(assumption)) as [A1 A2]. destruct (IH ltac:(assumption)) as [B1 B2]. split; constructor; assumption. }
+      destruct G as [G1 G2]. split; [|rewrite vall_set; apply set_of_list_all; exact G2].
+      cbn [lvren vren]. rewrite <- (set_of_list_vren D r vs Hcmp G2). constructor. exact G1.
+    - intros loc v Hn Hl. cbn [lvall lvren] in *. destruct (Hrho loc v Hl Hn) as [Hv Hn']. split; [constructor; exact Hn'|exact Hv].
+    - intros f args vs v HF Hc Hl. rewrite lvall_call in Hl. destruct Hl as [Hf Hl].
+      assert (G : Forall2 (den call rho') (map (lvren r rl) args) (map (vren r) vs) /\ Forall (vall D) vs).
+      { clear -HF Hl. induction HF as [|l v0 ls vs [_ IHx] _ IH]; cbn [map]; [split; constructor|]. inversion Hl; subst.
+        destruct (IHx ltac:(assumption)) as [A1 A2]. destruct (IH ltac:(assumption)) as [B1 B2]. split; constructor; assumption. }
+      destruct G as [G1 G2].
+      assert (Hc' : forall g, call f g (map (vren r) vs) = Ok (vren r v, g) /\ vall D v).
+      { intros g. pose proof (Hcall f Hf D r g g vs G2 Hr) as H. rewrite (Hc g) in H. destruct H as (_ & Hv & H). split; [exact H|exact Hv]. }
+      split; [|apply (Hc' []); exact []]. cbn [lvren]. apply (den_call call rho' f _ (map (vren r) vs)); [exact G1|]. intros g. apply Hc'.
+  Qed.
 End Extract.
